@@ -99,12 +99,14 @@ impl Check for C15 {
 
     fn budget(&self, tier: &str) -> u64 { if tier == "thorough" { 60_000 } else { 6_000 } }
 
-    fn generate(&self, seed: u64, _tier: &str, env: &Env) -> Trace {
+    fn generate(&self, seed: u64, tier: &str, env: &Env) -> Trace {
         let mut r = Rng::new(seed);
+        // thorough tier: half of the runs are three times as long (deeper histories)
+        let dm: u64 = if tier == "thorough" && seed % 2 == 0 { 3 } else { 1 };
         let g = RawGen::new(&env.data);
         let sg = SemGen::new(&env.data);
         let mut t = base_instant(&mut r, &env.host_rule);
-        let n = 8 + r.below(20);
+        let n = (8 + r.below(20)) * dm;
         let cfg_rate = *r.pick(&[0u64, 1, 3]);
         let mut lang = if r.chance(1, 3) { "tr" } else { "en" };
         let mut dec = ",".to_string();
